@@ -240,7 +240,7 @@ func (d *driver) bgv(c *bgvCtx, name string) {
 				}
 				d.emit(e)
 			}
-			if l <= c.h { // sums of rotations inside the rows
+			{ // sums of rotations (cyclic inside the rows: n*b may exceed the row size)
 				ct, v := c.fresh(d.rng)
 				c.ks.advertise(p.GaloisElementsForInnerSum(b, n))
 				o := out()
